@@ -32,18 +32,24 @@ theorem c14_start_once (d : Deep) : start (start d) = start d := by
   | false => rw [start_not_started d hs]; exact start_started _ rfl
 
 /-- **NO_TRACE leaves the hooks untouched** — with tracing disabled by configuration, after any history the
-    process's trace functions are the ones it had before the agent existed. -/
+    process's trace functions are whatever the application itself installed last (`runH`'s ghost component:
+    initially the functions present before the agent existed, then each `hostSet`): the agent never wrote them. -/
 theorem c14_notrace_untouched (h1 h2 : Hook) (ps pend : List Nat) (ops : List Op) :
-    (run ops (init h1 h2 true ps pend)).hooks = (h1, h2) := by
-  have hi := inv_run h1 h2 true ops _ (inv_init h1 h2 true ps pend)
+    (run ops (init h1 h2 true ps pend)).hooks = (runH ops (init h1 h2 true ps pend, (h1, h2))).2 := by
+  have hi := inv_run true ops _ (h1, h2) (inv_init h1 h2 true ps pend)
+  rw [runH_fst] at hi
   exact hi.idle_hooks (hi.notrace_idle rfl)
 
-/-- **restore exact** — after any history, whenever the agent is not started the process's trace functions are
-    exactly the pre-existing ones, and whenever it is started (tracing enabled) both are the agent's. -/
+/-- **restore exact** — after any history (starts, shutdowns with any faults, config updates, poll ticks, and the
+    application changing its own trace functions while the agent is not tracing), whenever the agent is not
+    started the process's trace functions are exactly the ones the application installed last — i.e. the ones
+    present before the most recent start — and whenever it is started (tracing enabled) both are the agent's. -/
 theorem c14_restore (h1 h2 : Hook) (nt : Bool) (ps pend : List Nat) (ops : List Op) :
     let d := run ops (init h1 h2 nt ps pend)
-    (d.started = false → d.hooks = (h1, h2)) ∧ (d.started = true → nt = false → d.hooks = (.agent, .agent)) := by
-  have hi := inv_run h1 h2 nt ops _ (inv_init h1 h2 nt ps pend)
+    let host := (runH ops (init h1 h2 nt ps pend, (h1, h2))).2
+    (d.started = false → d.hooks = host) ∧ (d.started = true → nt = false → d.hooks = (.agent, .agent)) := by
+  have hi := inv_run nt ops _ (h1, h2) (inv_init h1 h2 nt ps pend)
+  rw [runH_fst] at hi
   exact ⟨fun hs => hi.idle_hooks (hi.stopped_idle hs),
          fun hs hn => (hi.tracing_hooks (hi.started_tracing hs hn)).1⟩
 
@@ -55,6 +61,25 @@ theorem c14_start_shutdown (h1 h2 : Hook) (nt : Bool) (ps pend : List Nat) (f : 
   simp only [run, List.foldl, step]
   rw [start_not_started _ (by simp [init])]
   rw [shutdown_started f _ rfl]
+
+/-- a second cycle restores the hooks of the SECOND cycle: pre-existing A, start, shutdown, the application installs
+    B, start, shutdown — the hooks are B (not the A remembered from the first start). -/
+theorem c14_second_cycle (a1 a2 b1 b2 : Hook) (ps pend : List Nat) (f g : Faults) :
+    (run [.start, .shutdown f, .hostSet b1 b2, .start, .shutdown g] (init a1 a2 false ps pend)).hooks = (b1, b2) := by
+  have h := (c14_restore a1 a2 false ps pend [.start, .shutdown f, .hostSet b1 b2, .start, .shutdown g]).1
+  have hst : (run [.start, .shutdown f, .hostSet b1 b2, .start, .shutdown g] (init a1 a2 false ps pend)).started
+      = false := by
+    simp only [run, List.foldl, step]
+    rw [start_not_started _ (by simp [init]), shutdown_started f _ rfl]
+    simp only [hostSet]
+    split
+    · rw [start_not_started _ rfl, shutdown_started g _ rfl]
+    · rw [start_not_started _ rfl, shutdown_started g _ rfl]
+  have hv := h hst
+  rw [hv]
+  simp only [runH, hostView, step]
+  rw [start_not_started _ (by simp [init]), shutdown_started f _ rfl]
+  simp [thShutdown, thStart, thInit, init]
 
 /-- **shutdown completes under any fault subset** — whichever plugins' `shutdown()` raise (either class) and
     whichever pending sends fail, shutting a started agent down does not raise, leaves it not started, the poll
@@ -148,9 +173,9 @@ private def allFail : Faults := { plugin := fun _ => true, task := fun _ => true
 /-- a concrete history with a pre-existing host trace function, everything failing at shutdown, a late config
     update and a second start/shutdown. -/
 example :
-    let d := run [.start, .newConfig [7, 8], .pollTick (some .exc), .shutdown allFail, .newConfig [9], .start,
-                  .shutdown allFail] (init (.host 1) .none false [10, 11] [1, 2, 3])
-    d.hooks = (.host 1, .none) ∧ d.started = false ∧ armed d = 0 ∧ d.shutCalls = [10, 11, 10, 11] ∧
+    let d := run [.start, .newConfig [7, 8], .pollTick (some .exc), .shutdown allFail, .newConfig [9],
+                  .hostSet (.host 5) .none, .start, .shutdown allFail] (init (.host 1) .none false [10, 11] [1, 2, 3])
+    d.hooks = (.host 5, .none) ∧ d.started = false ∧ armed d = 0 ∧ d.shutCalls = [10, 11, 10, 11] ∧
     d.pending = [] := by
   decide
 
